@@ -464,8 +464,77 @@ pub fn check_all(doc: &str, rules: &str, evals: &mut u64) -> Result<Option<(Obs,
     Ok(Some((reference, configs)))
 }
 
+// ------------------------------------------------------------------------------------------------
+// stage: the ways a document can arrive (file, stdin, --payload) on texts whose reading is not
+// obvious - whatever the reading is, it is the same for all of them
+
+const ENTRY_TEXTS: [&str; 10] = [
+    "{\"x\": -0, \"y\": 1}",
+    "{\"x\": 1, \"x\": 2, \"y\": 1}",
+    "{\"x\": 18446744073709551615, \"y\": 1}",
+    "{\"x\": 1e400, \"y\": 1}",
+    "{\"x\": 1.0, \"y\": 1}",
+    "{\"x\": 0.18731771569502986, \"y\": 1}",
+    "{\"x\": \"\\ud83d\\ude00\", \"y\": 1}",
+    "{\"x\": 9223372036854775808, \"y\": 1}",
+    "x: -0\ny: 1\n",
+    "x: 0x1F\ny: 1\n",
+];
+const ENTRY_RULES: &str = "rule xint {\n  x is_int\n}\nrule xfloat {\n  x is_float\n}\nrule xstr {\n  x is_string\n}\nrule xnonneg {\n  x >= 0\n}\nrule xfrac {\n  x == 0.18731771569502986\n}\nrule yone {\n  y == 1\n}\n";
+
+fn entry_case(i: usize) -> CaseResult {
+    let text = ENTRY_TEXTS[i % ENTRY_TEXTS.len()];
+    let case = json!({"kind": "entry", "index": i});
+    let dir = fresh_dir("c07e");
+    let rp = dir.join("r.guard");
+    let dp = dir.join("d.json");
+    write_file(&rp, ENTRY_RULES);
+    write_file(&dp, text);
+    let (rps, dps) = (vec![rp.to_string_lossy().to_string()], vec![dp.to_string_lossy().to_string()]);
+    let mut evals = 0;
+    let mut seen: Vec<(String, String)> = vec![];
+    for structured in [false, true] {
+        let o = if structured { VOpts::structured(Fmt::Json) } else { VOpts::plain(Fmt::Single, vec![Show::All]) };
+        for via in ["file", "stdin", "payload"] {
+            evals += 1;
+            let r = match via {
+                "file" => validate_files(&rps, &dps, &[], &o, ""),
+                "stdin" => validate_files(&rps, &[], &[], &o, text),
+                _ => validate_payload(&[ENTRY_RULES.to_string()], &[text.to_string()], &[], &o),
+            };
+            if let Some(p) = &r.panic {
+                return CaseResult::Fail(Failure { msg: format!("{}: panic {}", via, p), sig: format!("panic:{}", p.split(' ').next().unwrap_or("")), case });
+            }
+            // what was decided: error or the verdict sets
+            let outcome = match &r.code {
+                Ok(c @ (0 | 19)) => {
+                    let obs = if structured { serde_json::from_str::<J>(&r.out).map_err(|e| e.to_string()).and_then(|j| obs_from_report(&j[0])) } else { parse_table(&r.out, &[Show::All]) };
+                    match obs {
+                        Ok(o) => format!("exit {} PASS {:?} FAIL {:?} SKIP {:?}", c, o.pass, o.fail, o.skip),
+                        Err(e) => return CaseResult::Fail(Failure { msg: format!("{} ({}): {}", via, if structured { "structured" } else { "console" }, e), sig: "c07:entry:parse".into(), case }),
+                    }
+                }
+                Ok(c) => format!("exit {}", c),
+                Err(_) => "error".to_string(),
+            };
+            seen.push((format!("{}{}", via, if structured { " --structured" } else { "" }), outcome));
+        }
+    }
+    if let Some((w, o)) = seen.iter().find(|(_, o)| *o != seen[0].1) {
+        return CaseResult::Fail(Failure {
+            msg: format!("the document {:?} is decided differently depending on how it arrives: {} gives {} but {} gives {}", text, seen[0].0, seen[0].1, w, o),
+            sig: "c07:entry-point-differs".into(),
+            case,
+        });
+    }
+    CaseResult::Pass(Info { nontrivial: true, key: hash_case(&[text]), classes: vec![format!("entry:{}", seen[0].1.split(' ').take(2).collect::<Vec<_>>().join(" "))], evals, sample: Some(json!({"text": text, "outcome": seen[0].1})) })
+}
+
 pub fn replay(case: &J) -> CaseResult {
     let mut ev = 0;
+    if case["kind"] == "entry" {
+        return entry_case(case["index"].as_u64().unwrap_or(0) as usize);
+    }
     if case["kind"] == "duplicate-names" {
         TOLERATE_F42.with(|t| t.set(true));
         SAW_F42.with(|t| t.set(false));
@@ -866,6 +935,7 @@ pub fn run(tier: Tier, seed: u64) -> i32 {
     };
     execute("C07", tier, seed, spec, &replay, &|run: &Session| {
         run.run_enum("big", 7, big_case);
+        run.run_enum("entry-points", ENTRY_TEXTS.len(), entry_case);
         let sz = tier.pick(Size::quick(), Size::thorough());
         run.run_random("multi-file", tier.pick(6_000, 150_000), tier.pick(2500, 4000), |u| multi_case(u, sz));
         run.run_random("multi-data", tier.pick(6_000, 150_000), tier.pick(2000, 3200), |u| multi_data_case(u, sz));
